@@ -32,6 +32,13 @@ type ake struct {
 	state authState
 	keys  keyManagementContext
 
+	// ssid and theirKey belong to the exchange in progress. While a session
+	// is running they replace the values of the conversation only when the
+	// exchange has finished - an exchange that fails or is never completed
+	// must not change what the running session reports.
+	ssid     [8]byte
+	theirKey PublicKey
+
 	lastStateChange time.Time
 }
 
@@ -50,7 +57,10 @@ func (c *Conversation) initAKE() {
 }
 
 func (c *Conversation) calcAKEKeys(s *big.Int) {
-	c.ssid, c.ake.revealKey, c.ake.sigKey = calculateAKEKeys(s, c.version)
+	c.ake.ssid, c.ake.revealKey, c.ake.sigKey = calculateAKEKeys(s, c.version)
+	if c.msgState != encrypted {
+		c.ssid = c.ake.ssid
+	}
 }
 
 func (c *Conversation) setSecretExponent(val secretKeyValue) {
@@ -290,7 +300,7 @@ func (c *Conversation) processSig(msg []byte) (err error) {
 }
 
 func (c *Conversation) checkedSignatureVerification(mb, sig []byte) error {
-	rest, ok := c.theirKey.Verify(mb, sig)
+	rest, ok := c.ake.theirKey.Verify(mb, sig)
 	if !ok {
 		return newOtrError("bad signature in encrypted signature")
 	}
@@ -317,7 +327,10 @@ func verifyEncryptedSignatureMAC(encryptedSig []byte, theirMAC []byte, keys *ake
 func (c *Conversation) parseTheirKey(key []byte) (sig []byte, keyID uint32, err error) {
 	var rest []byte
 	var ok, ok2 bool
-	rest, ok, c.theirKey = ParsePublicKey(key)
+	rest, ok, c.ake.theirKey = ParsePublicKey(key)
+	if c.msgState != encrypted {
+		c.theirKey = c.ake.theirKey
+	}
 	sig, keyID, ok2 = ExtractWord(rest)
 	if !(ok && ok2) {
 		return nil, 0, errCorruptEncryptedSignature
@@ -327,7 +340,7 @@ func (c *Conversation) parseTheirKey(key []byte) (sig []byte, keyID uint32, err 
 }
 
 func (c *Conversation) expectedMessageHMAC(keyID uint32, keys *akeKeys) []byte {
-	verifyData := appendAll(c.ake.theirPublicValue, c.ake.ourPublicValue, c.theirKey, keyID)
+	verifyData := appendAll(c.ake.theirPublicValue, c.ake.ourPublicValue, c.ake.theirKey, keyID)
 	return sumHMAC(keys.m1, verifyData, c.version)
 }
 
